@@ -36,6 +36,36 @@ def gen_mn_case(rng, nmin=2, nmax=5, connected=True, dup=None, label_kind=None, 
     return {"nodes": names, "card": card, "labels": labels, "factors": fs, "dup": dup}
 
 
+def gen_cycle_case(rng, nmin=5, nmax=8, grid=False):
+    """long chordless cycles (and the 3x3 grid): triangulation needs cascaded fill-in edges"""
+    if grid:
+        n = 9
+        ring = [(r * 3 + c, r * 3 + c + 1) for r in range(3) for c in range(2)] + [(r * 3 + c, r * 3 + c + 3) for r in range(2) for c in range(3)]
+    else:
+        n = rng.randint(nmin, nmax)
+        ring = [(i, (i + 1) % n) for i in range(n)]
+        if rng.random() < .3:
+            a = rng.randrange(n)
+            ring.append((a, (a + rng.randint(2, n - 2)) % n))      # one chord
+    perm = list(range(n))
+    rng.shuffle(perm)
+    names = gen.node_names(rng, n, rng.choice(["str", "word", "int"]))
+    big = rng.randrange(n)
+    card = [3 if (i == big and not grid and rng.random() < .6) else 2 for i in range(n)]
+    labels = [gen.state_labels(rng, c, rng.choice(["int", "str", "permint"])) for c in card]
+    fs = []
+    for u, v in ring:
+        u, v = perm[u], perm[v]
+        if rng.random() < .5:
+            u, v = v, u
+        fs.append({"scope": [u, v], "vals": [rs(x) for x in gen.rand_vals(rng, card[u] * card[v], "generic")]})
+    for v in range(n):
+        if rng.random() < .2:
+            fs.append({"scope": [v], "vals": [rs(x) for x in gen.rand_vals(rng, card[v], "generic")]})
+    rng.shuffle(fs)
+    return {"nodes": names, "card": card, "labels": labels, "factors": fs, "dup": False, "cycle": True}
+
+
 def edges_of(case):
     E = set()
     for f in case["factors"]:
